@@ -326,7 +326,7 @@ async fn sender_actor(flow: Arc<Mutex<FlowState>>, mut tx: base::Sender<Item>, o
 
 async fn receiver_actor(flow: Arc<Mutex<FlowState>>, mut rx: base::Receiver<Item>, recv_cancel: bool, deep: bool) {
     loop {
-        if kit::is_aborted() {
+        if kit::is_aborted() || kit::spinning() {
             break;
         }
         let res = if deep || (recv_cancel && kit::coin(1, 10)) {
